@@ -54,9 +54,9 @@ type Options struct {
 	// explode. Every single such choice is still explored at every point; only the number of them
 	// combined in one execution is limited. <= 0 = unlimited.
 	SwitchBound int
-	Cfg      Config
-	Deadline time.Time
-	MaxExecs int64
+	Cfg         Config
+	Deadline    time.Time
+	MaxExecs    int64
 	// Sharding: this process explores only the sub-trees it owns. The tree is cut at SplitDepth
 	// deviations from the all-default execution.
 	Shard, Shards int
